@@ -27,6 +27,10 @@ TRUSTED = [
 ASSUMPTIONS = [
     "storage aliasing (a step-1 slice is a view) and device placement are outside the pure model",
     "payload scalars are opaque: ints and float64 (NaN included) are moved, never computed on",
+    "index expressions that are not 'supported selections' in the property's sense - a boolean mask whose length differs "
+    "from the axis, an axis other than rows / columns (dim 2, -1, 3, -4), narrow with a negative start - are generated "
+    "(the current code raises on all of them, and the model mirrors that) but the oracle demands nothing there: a "
+    "rewrite that accepts them is not reported",
     "narrow(dim, start, length) called directly is exercised for windows that fit the axis, for start == 0 with any "
     "length, for non-positive lengths and for start < 0 (must raise); a window overshooting the axis from start > 0 is "
     "OUTSIDE the quantifier (narrow is not an IndexSelectType; torch.narrow rejects it, the library does not check and "
@@ -407,6 +411,20 @@ def ref_run(case):
     return out
 
 
+# reasons for which the nested-list reference has no answer AND the property text demands no raise either
+UNSUPPORTED_WHY = ("mask length", "dimension out of range", "narrow start < 0")
+
+
+def unsupported_accepted(case, obs):
+    """True when the implementation RETURNED something for an unsupported index expression (then the Coq model,
+    which mirrors the current code and raises there, is not compared on this case)."""
+    ref = ref_run(case)
+    for r, g in zip(ref, obs.get("steps", [])):
+        if not r["ok"]:
+            return r.get("why") in UNSUPPORTED_WHY and g["ok"]
+    return False
+
+
 def step_kind(st):
     if st["op"] == "pair":
         return f"pair({st['i']['t']},{st['j']['t']})"
@@ -426,6 +444,10 @@ def oracle(case, obs):
         kind = step_kind(case["prog"][k])
         if not g.get("src_same", True):
             return dict(key="source-modified", what=f"step {k} {kind} modified its source container")
+        if not r["ok"] and r.get("why") in UNSUPPORTED_WHY:
+            # not a supported selection (wrong-length mask, an axis other than rows / columns, narrow with a negative
+            # start): the property demands neither a raise nor a particular result - nothing further is judged
+            return None
         if r["ok"] != g["ok"]:
             if r["ok"]:
                 return dict(key=f"raises:{case['kind']}:{kind}",
@@ -553,6 +575,8 @@ def coq_obs_step(s):
 
 def coq_term(case, obs):
     if "steps" not in obs or any("cells_exc" in s for s in obs["steps"]):
+        return None
+    if unsupported_accepted(case, obs):
         return None
     ctor = "run_mnt" if case["kind"] == "mnt" else "run_met"
     prog = C.clist(case["prog"][:len(obs["steps"])], coq_step)
